@@ -71,6 +71,26 @@ class C11(core.Prop):
             msgs = [bufgen.valid_message(rng) for _ in range(rng.randint(1, 3))]
             text = "".join(bufgen.spelling(rng, m) + rng.choice(["", "\n", " "]) for m in msgs)
             add("valid", text, rng.choice([2048, None]), rng.choice(["whole", "cuts", "blocks"]))
+        # E: complete, well-formed elements that are no messages (a known root with an unknown or foreign child, missing or
+        # invalid attributes, stray text ...) between valid messages: skipped silently, the neighbours delivered
+        from harness import xmlgen
+        for kind in (("setTextVector", "defSwitchVector", "newNumberVector", "message", "setLightVector", "defBLOBVector") if tier == "quick"
+                     else sorted(msggen.GRAMMAR)):
+            m = msggen.gen_message(rng, kind, max_children=2)
+            if m["children"] is not None and not m["children"]:
+                m["children"] = [msggen.gen_part(rng, msggen.GRAMMAR[kind][3])]
+            trees = list(xmlgen.perturb(rng, m))
+            root = xmlgen.msg_tree(m)
+            trees.append(("unknown-child", [root[0], root[1], "", [["bogus", [["name", "X"]], "1", []]]]))
+            trees.append(("message-as-child", [root[0], root[1], "", [["getProperties", [["version", "1.7"]], "", []]]]))
+            trees.append(("grandchild", [root[0], root[1], "", [["oneText", [["name", "X"]], "", [["oneText", [["name", "Y"]], "v", []]]]]]))
+            for label, t in trees:
+                a, b = bufgen.valid_message(rng, short=True), bufgen.valid_message(rng, short=True)
+                st = {"quote": '"', "selfclose": "space"}
+                text = bufgen.spelling(rng, a, st) + xmlgen.spell(rng, t, st) + bufgen.spelling(rng, b, st)
+                thr = rng.choice([None, 2048]) if len(text) < 1500 else None
+                add("not-a-message:" + label.split(":")[0].split("=")[0], text, thr, rng.choice(["whole", "chars", "cuts"]),
+                    late=[bufgen.view(a), bufgen.view(b)])
         # the hypothesis of corrupt_front_is_abandoned, evaluated by the model on the short truncations
         idx = [i for i, c in enumerate(cases) if c.get("front")]
         res, err = core.run_model("buffer", [["corrupt", c["front"]] for c in (cases[i] for i in idx)])
